@@ -18,6 +18,7 @@ ASSUMPTIONS = ["float()/repr round trip of CPython (float tokens and their parse
                "pathlib.Path(str) keeps simple path strings", "int() on ASCII sign+digits"]
 TRUSTED = ["stdlib argparse (its optional-argument fragment is modelled in Model/Engine.lean and compared end to end)"]
 EXHAUSTIVE = {"quick": False, "thorough": False}
+THOROUGH_ROUNDS = 3   # thorough tier: this many generator passes with derived PRNG states (vcheck)
 MANIFEST = {
     "text": ("Proof (full on the modelled fragment; float parsing is a named parameter): Lean model of argparse's optional-argument engine (lexing, nargs shapes, type/choices, "
              "defaults), of get_arg_options / postprocess per annotation, and of the whole flat pipeline; theorems: the "
